@@ -394,6 +394,16 @@ def explore_converted(ck):
                             ck.judge('ctor-text-convert',
                                      Money(f"{q2.amount} {c2}", u1), y * r21,
                                      c, u1)
+                            # text whose amount is NOT a multiple of the
+                            # named currency's fraction, with another target
+                            # currency: one rounding, in the target currency
+                            yt = y + g2 * F(2, 5)
+                            c = dict(c, op='ctor-text-convert-offgrid',
+                                     y=str(yt))
+                            ck.judge('ctor-text-convert-offgrid',
+                                     Money(f"{O.dec_str(yt)} {c2}", u1),
+                                     yt * r21, c, u1)
+                            c = dict(c, y=str(y))
                             # exchange-rate application (no converter
                             # involved): 1 c2 = r21 c1
                             from quantity.money import ExchangeRate
